@@ -159,8 +159,14 @@ func init() {
 		return OkV(B([]byte(s)))
 	})
 	regOp("sxg_write", func(a []Sx) Sx {
-		var buf bytes.Buffer
-		if err := exchangeOf(a[0]).Write(&buf); err != nil {
+		var first, buf bytes.Buffer
+		e := exchangeOf(a[0])
+		err0 := e.Write(&first) // written twice: both writes must agree
+		err := e.Write(&buf)
+		if (err0 == nil) != (err == nil) || (err == nil && !bytes.Equal(first.Bytes(), buf.Bytes())) {
+			return L(Sym("second_write_differs"))
+		}
+		if err != nil {
 			return ErrV()
 		}
 		return OkV(B(buf.Bytes()))
